@@ -5,6 +5,7 @@ package harness
 // Both are decided on two-run histories in a scratch working directory.
 
 import (
+	"bytes"
 	"flag"
 	"fmt"
 	"os"
@@ -57,6 +58,10 @@ func c06Scenarios(cfg runCfg) []Scenario {
 			x["stale"] = "12" // a dozen old fail files (written by another rapid version) are lying around already
 		case 1:
 			x["tmpdir"] = "/dev/shm" // the system's temporary directory is on another file system than the package
+		case 2:
+			x["symlink"] = "1" // before the next run the fail file is moved away and a symbolic link is left in its place
+		case 3, 4:
+			x["upgrade"] = "1" // after the replays rapid is "upgraded" (the saved file is of another version now) and the test fails again
 		}
 		out = append(out, Scenario{Family: "history", Seed: mix(cfg.seed, 6, uint64(i)), S: name, X: x})
 	}
@@ -320,6 +325,21 @@ func c06Run(t *testing.T, sc Scenario, res *Result) {
 		}
 		res.inc("run2:" + tag)
 	}
+	if sc.X["symlink"] == "1" {
+		// testdata is populated with links into a store (Bazel runfiles, Nix, git-annex): the fail file is reached
+		// through a symbolic link
+		store, _ := os.MkdirTemp(".", "store")
+		store, _ = filepath.Abs(store)
+		defer os.RemoveAll(store)
+		real := filepath.Join(store, "real.fail")
+		if err := os.Rename(final[0], real); err == nil {
+			if err := os.Symlink(real, final[0]); err != nil {
+				os.Rename(real, final[0])
+			} else {
+				res.inc("histories_with_symlinked_fail_file")
+			}
+		}
+	}
 	if two {
 		// next run of the test: the passing Check comes first again and sees (and must leave alone) the other Check's fail file
 		ok2 := runBody(okBody, runOpts{name: name, flags: map[string]string{"rapid.shrinktime": shrink}})
@@ -361,6 +381,50 @@ func c06Run(t *testing.T, sc Scenario, res *Result) {
 	run3 := runBody(body, runOpts{name: name, flags: map[string]string{"rapid.shrinktime": shrink, "rapid.failfile": abs}})
 	os.Chdir(wd)
 	judge2("flag", run3)
+	if sc.X["upgrade"] == "1" {
+		// rapid is upgraded: the saved file is of another version now and is ignored.  The test fails again (same
+		// flags as run 1: often the very same minimised bitstream) - that failure must be persisted afresh and
+		// replayed first by the run after it.
+		b, _ := os.ReadFile(final[0])
+		nb := bytes.Replace(b, []byte("\n"+rapidVersion()+"#"), []byte("\nv0.3.9#"), 1)
+		if bytes.HasPrefix(b, []byte(rapidVersion()+"#")) {
+			nb = append([]byte("v0.3.9#"), b[len(rapidVersion())+1:]...)
+		}
+		if !bytes.Equal(nb, b) && os.WriteFile(final[0], nb, 0o644) == nil {
+			run4 := runBody(body, runOpts{name: name, flags: fl1})
+			d4 := map[string]any{"name": name, "old_file_now_of_another_version": final[0], "run4": run4.tb.brief()}
+			res.inc("upgrade_histories")
+			if run4.rp.Kind != "failed" && run4.rp.Kind != "panic" {
+				res.inc("upgrade_run_did_not_fail")
+			} else {
+				f4, _, _ := listFailDir(name)
+				var fresh []string
+				for _, f := range f4 {
+					if v, _, _, _, err := readFailFile(f); err == nil && v == rapidVersion() {
+						fresh = append(fresh, f)
+					}
+				}
+				d4["dir"] = f4
+				fin4 := run4.log.Invs[len(run4.log.Invs)-1]
+				switch {
+				case len(fresh) != 1:
+					res.violate(sc, "c06/upgrade/file-count", fmt.Sprintf("after the upgrade the test failed again, %d fail files of the current version exist (expected exactly 1: the failure must be persisted afresh)", len(fresh)), d4)
+				case run4.rp.FailFile != fresh[0]:
+					res.violate(sc, "c06/upgrade/path", fmt.Sprintf("message names %q but the usable file is %q", run4.rp.FailFile, fresh[0]), d4)
+				default:
+					if _, _, w4, _, err := readFailFile(fresh[0]); err != nil || !wordsEqual(w4, fin4.Cand) {
+						res.violate(sc, "c06/upgrade/words", "the fail file written after the upgrade does not encode the minimised test case", d4)
+					}
+					run5 := runBody(body, runOpts{name: name, flags: map[string]string{"rapid.shrinktime": shrink}})
+					d4["run5"] = run5.tb.brief()
+					if len(run5.log.Invs) == 0 || run5.log.Invs[0].Kind != "buffer" || !wordsEqual(run5.log.Invs[0].Cand, fin4.Cand) || run5.rp.N != 0 || run5.rp.M != run4.rp.M {
+						res.violate(sc, "c06/upgrade/not-replayed", "the failure persisted after the upgrade was not replayed first ('after 0 tests', same failure) by the next run: "+clip(run5.rp.Raw, 200), d4)
+					}
+					res.inc("upgrade_histories_replayed")
+				}
+			}
+		}
+	}
 	if res.wantSample() && r.chance(1, 8) {
 		res.sample(map[string]any{"test_name": name, "fail_file": final[0], "output_class": outKind, "words": wordsStr(words), "comment_lines": len(comments), "run2": clip(run2.rp.Raw, 120)})
 	}
